@@ -383,6 +383,121 @@ def synthetic_weights_job(job):
 
 
 # ----------------------------------------------------------------------------
+# second-generation crash points: checkpoints written by a run that itself was restored after a kill
+def chain_first_kills(rec):
+    """First kills (incarnation 0, second checkpoint) that leave the three distinct durable layouts: only the
+    `.old` file (between move-to-.old and the final rename), a torn temp file beside it, a completed checkpoint."""
+    fs = {e["e"]: e for e in rec["fs"]}
+    cks = rec["ckpts"]
+    if len(cks) < 3:
+        return []
+    ck = cks[1]
+    out = []
+    for e in range(ck["first"], ck["last"] + 1):
+        ev = fs.get(e)
+        if not ev:
+            continue
+        pc = path_class(ev)
+        if ev["op"] == "rename" and pc == "resume->resume.old":
+            out.append((e, None, "first:old-only"))
+        elif ev["op"] == "write" and pc == "resume.temp":
+            out.append((e, max(1, ev["nbytes"] // 2), "first:torn-temp"))
+        elif ev["op"] == "rename" and pc == "resume.temp->resume":
+            out.append((e, None, "first:completed"))
+    return out
+
+
+def chain_record_job(job):
+    """Run the world with the first kill only and return the fs events of the first checkpoint that the
+    restored incarnation writes."""
+    world = job["world"]
+    out = W.run_world(world)
+    recs = out["records"]
+    res = {"name": job["name"], "cls": job["cls"], "world": world, "events": [], "first": None,
+           "exits": [i["exit"] for i in out["incarnations"]]}
+    b = [r for r in recs if r["k"] == "ckpt_begin" and r["i"] == 1]
+    if b:
+        o = b[0]["ordinal"]
+        res["first"] = b[0]["fs_event"]
+        res["events"] = [{k: v for k, v in r.items() if k in ("e", "op", "path", "dst", "nbytes")}
+                         for r in recs if r["k"] == "fs" and r["i"] == 1 and r.get("ckpt") == o]
+    return res
+
+
+def chain_points(crec, tier):
+    pts = []
+    if crec["first"] is not None and crec["first"] - 1 >= 0:
+        pts.append((crec["first"] - 1, None, "second:before"))
+    for ev in crec["events"]:
+        cls = f"second:{ev['op']}:{path_class(ev)}"
+        pts.append((ev["e"], None, cls))
+        if ev["op"] == "write":
+            n = ev["nbytes"]
+            for L in ([0, n // 2] if tier != "thorough" else [0, 1, n // 4, n // 2, n - 1]):
+                if 0 <= L < n:
+                    pts.append((ev["e"], L, cls + ":torn"))
+    return pts
+
+
+def chain_kill_job(job):
+    """kill, restore, kill inside the first checkpoint of the restored run, restore again: the second restore
+    must find the last checkpoint that completed in either incarnation."""
+    from sim import judges as J2
+
+    world = job["world"]
+    out = W.run_world(world)
+    res = J.summarise(world, out)
+    recs = out["records"]
+    incs = out["incarnations"]
+    exits = [i["exit"] for i in incs]
+    viol = []
+    site = job["cls"]
+    if exits[:2] != [137, 137]:
+        res["harness_error"] = {"what": "planned kill chain did not fire", "exits": exits, "world": world}
+    elif len(incs) < 3:
+        res["harness_error"] = {"what": "no second restart happened", "exits": exits, "world": world}
+    else:
+        con = [r for r in recs if r["k"] == "constructed" and r["i"] == 2]
+        if not con:
+            exc = [r for r in recs if r["k"] == "exception" and r["i"] == 2]
+            e = exc[-1] if exc else {}
+            viol.append({"oracle": "C11-CRASH-RESUMABLE", "key": f"C11-CRASH-RESUMABLE|chain|{site}|{e.get('type')}",
+                         "detail": {"what": "FlowSampler(resume=True) failed after the second kill", "kill_site": site,
+                                    "exception": e.get("type"), "msg": (e.get("msg") or "")[:300],
+                                    "tb": (e.get("tb") or "")[-800:]}, "world": world})
+        else:
+            v2, _info = J2.judge_resume_eq(world, out, prop="C11")
+            for x in v2:
+                x["oracle"] = x["oracle"].replace("C11-RESUME-", "C11-CRASH-")
+                x["key"] = x["key"].replace("C11-RESUME-", "C11-CRASH-") + "|chain|" + site
+                x["detail"]["kill_site"] = site
+            viol += v2
+            if exits[-1] == 70:
+                e = [r for r in recs if r["k"] == "exception"][-1]
+                viol.append({"oracle": "C11-CRASH-CONTINUE", "key": f"C11-CRASH-CONTINUE|chain|{site}|{e.get('type')}",
+                             "detail": {"what": "run restored after the second kill raised", "kill_site": site,
+                                        "exception": e.get("type"), "msg": e.get("msg", "")[:300],
+                                        "tb": e.get("tb", "")[-800:]}, "world": world})
+            elif exits[-1] == 72:
+                viol.append({"oracle": "C11-CRASH-CONTINUE", "key": f"C11-CRASH-CONTINUE|chain|{site}|budget",
+                             "detail": {"what": "run restored after the second kill exhausted its step budget",
+                                        "kill_site": site}, "world": world})
+    for cv in res["violations"]:
+        cv["oracle"] = "C11-CRASH-CONTINUE/" + cv["oracle"]
+        cv["key"] = f"C11-CRASH-CONTINUE|chain|{site}|{cv['key']}"
+    res["violations"] = res["violations"] + viol
+    res["aborted"] = []
+    sig = f"{job['name']}|chain|{site}"
+    res["signatures"] = [sig]
+    res["nontrivial"] = [sig]
+    res["probes"]["kill_inside_checkpoint_of_restored_run"] = 1
+    if "old-only" in site or "torn-temp" in site:
+        res["probes"]["second_kill_after_resume_from_old"] = 1
+    res["sample"] = {"scenario": job["name"], "kills": world["plan"], "class": site, "exits": exits}
+    return res
+
+
+# ----------------------------------------------------------------------------
 def body(r):
     seed, tier = r.seed, r.tier
     if r.replay:
@@ -475,6 +590,26 @@ def body(r):
         raise runner.Harness("determinism self-test failed: same world, different event log")
     for res in r.map(kill_job, kjobs, "kill"):
         r.absorb(res)
+    # second generation: kill again inside the first checkpoint written by the restored run
+    cjobs = []
+    for rec, rj in zip(recs, rec_jobs):
+        if not rec.get("finished") or (tier != "thorough" and "swarm" in rec["name"]):
+            continue
+        for (e, L, cls) in chain_first_kills(rec):
+            w = {k: v for k, v in rj["world"].items() if k != "weights_snapshots"}
+            w["plan"] = [{"inc": 0, "kind": "kill_fs", "event": e, "prefix": L}]
+            w["max_incarnations"] = 5
+            cjobs.append({"name": rec["name"], "cls": cls, "world": w})
+    c2 = []
+    for crec in r.map(chain_record_job, cjobs, "chain-record"):
+        if crec["exits"][:1] != [137]:
+            raise runner.Harness(f"first kill of a chain did not fire: {crec['name']} {crec['cls']} {crec['exits']}")
+        for (e, L, cls) in chain_points(crec, tier):
+            w = dict(crec["world"])
+            w["plan"] = list(w["plan"]) + [{"inc": 1, "kind": "kill_fs", "event": e, "prefix": L}]
+            c2.append({"name": crec["name"], "cls": crec["cls"] + "/" + cls, "world": w})
+    for res in r.map(chain_kill_job, c2, "kill-chain"):
+        r.absorb(res)
     if syn:
         for res in r.map(synthetic_weights_job, syn, "weights-prefixes"):
             r.absorb(res)
@@ -490,8 +625,12 @@ def body(r):
               "pickle every ~1/40 of the file; weights via synthetic torn states: every byte for the first save of the two "
               "base scenarios, every ~1/400 plus each write boundary +-1 elsewhere). A case is "
               "distinct by (scenario, op kind, path class, torn?, fresh-or-resumed); all are non-trivial "
-              "(the kill lands inside an in-flight checkpoint or weights save)."),
-        extra={"scenarios": [n for n, _ in matrix], "kill_points": len(kjobs), "synthetic_weight_prefixes": len(syn)},
+              "(the kill lands inside an in-flight checkpoint or weights save). Second generation: after a first kill "
+              "that leaves only the .old file, a torn temp beside it, or a completed checkpoint, the restored run is "
+              "killed again at every fs event (and inside the write) of the first checkpoint it writes; the second "
+              "restore must load the last checkpoint completed in either incarnation."),
+        extra={"scenarios": [n for n, _ in matrix], "kill_points": len(kjobs), "synthetic_weight_prefixes": len(syn),
+               "second_generation_kill_points": len(c2)},
         exhaustive=True,
         assumptions=["process-kill fault model (data handed to the kernel survives); no power loss",
                      "torch.save modelled as one sequential write of the serialised bytes",
